@@ -248,6 +248,8 @@ def check_uci(pid, tier, seed):
         ["position open", "go", "fin", "position open2", "ucinewgame", "go", "fin", "quit"],
         ["position open", "go", "ucinewgame", "position open", "go", "stop", "quit"],
         ["go", "go", "fin", "quit"], ["position term", "go", "isready", "position open", "go", "fin", "quit"],
+        ["position term", "go", "ucinewgame", "position open", "go", "fin", "quit"], ["position term", "go", "stop", "ucinewgame", "go", "position open", "go", "fin", "quit"],
+        ["position term", "go", "position open2", "ucinewgame", "position open", "go", "fin", "quit"],
         ["position open", "go", "isready", "isready", "stop", "stop", "go", "quit"],
     ]
     # isready during a long search: readyok must come before that search's bestmove
